@@ -790,6 +790,11 @@ class URL:
             _add(authority)
         elif (scheme and path[:2] != '//' and self.uses_netloc):
             _add('//')
+        elif path[:2] == '//':
+            # without an authority a path cannot begin with '//' (RFC
+            # 3986 3.3), it would be read back as one: write the empty
+            # authority out
+            _add('//')
         if path:
             if scheme and authority and path[:1] != '/':
                 _add('/')
